@@ -72,6 +72,27 @@ Diff(cfg, e, r) ==
     \cup (IF r.exits = <<>> THEN {} ELSE {"exits"})
     \cup (IF r.nondet THEN {"nondet"} ELSE {})
 
+(* History cases: an earlier Parse ran on the same object.  What that call  *)
+(* leaves behind for the next one (text, unknown options, values) is not    *)
+(* specified by the library, so only what a Parse must establish whatever   *)
+(* happened before is compared: an option that a fresh Parse of the same    *)
+(* arguments reports as called (on the command line, through its            *)
+(* environment variable, or by SetCalled) is reported as called, under the  *)
+(* same name when it is on the command line; and a required option that is  *)
+(* satisfied in a fresh Parse is not reported missing.                      *)
+DiffAfter(cfg, e, r) ==
+  IF r.panic # "" THEN {"panic"}
+  ELSE IF r.hang THEN {"hang"}
+  ELSE
+    (IF \A o \in 1..NOpts(cfg) : e.called[o] => r.called[o] THEN {} ELSE {"called"})
+    \cup (IF \A o \in 1..NOpts(cfg) :
+               e.called[o] => \/ r.as[o] = e.as[o]
+                              \/ e.as[o] \notin Names(cfg, o) /\ r.as[o] \in Names(cfg, o)
+          THEN {} ELSE {"as"})
+    \cup (IF e.err.kind # "required" /\ r.err.kind = "required" THEN {"err"} ELSE {})
+    \cup (IF e.derr # "required" /\ r.derr = "required" THEN {"derr"} ELSE {})
+    \cup (IF r.nondet THEN {"nondet"} ELSE {})
+
 -----------------------------------------------------------------------------
 Init == l = 1 /\ d = 0
 
@@ -84,9 +105,10 @@ CheckParse(dl, c) ==
       orc == Trace[dl].orc
       fin == Run(cfg, orc, c.argv, c.disp)
       e   == Outcome(cfg, fin)
-      df  == IF e.miss THEN {} ELSE Diff(cfg, e, c.res)
+      after == "haspre" \in DOMAIN c
+      df  == IF e.miss THEN {} ELSE IF after THEN DiffAfter(cfg, e, c.res) ELSE Diff(cfg, e, c.res)
       \* blocks enumerated from a family are the very cases GetoptMC explored; random blocks are new inputs
-      bad == IF Trace[dl].sp THEN SpecViolations(cfg, orc, c.argv, fin) ELSE {}
+      bad == IF Trace[dl].sp /\ ~after THEN SpecViolations(cfg, orc, c.argv, fin) ELSE {}
   IN /\ (e.miss => PrintT(ToJson([k |-> "UNVERIFIABLE", id |-> c.id])))
      /\ (fin.phase = "stuck" => PrintT(ToJson([k |-> "SPECFAIL", id |-> c.id, bad |-> {"stuck"}])))
      /\ (bad # {} => PrintT(ToJson([k |-> "SPECFAIL", id |-> c.id, bad |-> bad])))
